@@ -114,8 +114,18 @@ func (u *Unit) define(prefix string, t Term) Term {
 		return t
 	}
 	n := u.fresh(prefix)
-	u.items = append(u.items, fmt.Sprintf("(define-fun %s () %s %s)", n, u.tc.smt(t.T), t.S))
+	u.defItem(n, u.tc.smt(t.T), t.S)
 	return Term{n, t.T}
+}
+
+// defItem introduces name = body. Bodies containing ite are introduced as constants with a defining
+// equation (define-fun macros are expanded inside quantifier patterns, where ite conditions are illegal).
+func (u *Unit) defItem(name, srt, body string) {
+	if strings.Contains(body, "(ite ") {
+		u.items = append(u.items, fmt.Sprintf("(declare-const %s %s)", name, srt), fmt.Sprintf("(assert (= %s %s))", name, body))
+		return
+	}
+	u.items = append(u.items, fmt.Sprintf("(define-fun %s () %s %s)", name, srt, body))
 }
 
 // declare introduces an unconstrained constant.
@@ -184,7 +194,7 @@ func (u *Unit) heap(st *State, name, smtSort string) Term {
 func (u *Unit) setHeap(st *State, name string, smtSort string, t Term) {
 	u.eng.heapSorts[name] = smtSort
 	n := u.fresh(name)
-	u.items = append(u.items, fmt.Sprintf("(define-fun %s () %s %s)", n, smtSort, t.S))
+	u.defItem(n, smtSort, t.S)
 	st.heaps[name] = Term{n, nil}
 }
 
@@ -439,7 +449,7 @@ func (u *Unit) mergeStates(conds []Term, sts []*State) *State {
 			acc = Term{"(ite " + conds[i].S + " " + vals[i].S + " " + acc.S + ")", nil}
 		}
 		n := u.fresh(k + "_m")
-		u.items = append(u.items, fmt.Sprintf("(define-fun %s () %s %s)", n, srt, acc.S))
+		u.defItem(n, srt, acc.S)
 		out.heaps[k] = Term{n, nil}
 	}
 	return out
